@@ -5,8 +5,9 @@ PROPERTY = "C01"
 
 
 def t2(sx, S, prefix, rsv, oldlens, lens, long, nxp=None, rsv_on_len=False, plen=(), concrete=False,
-       again=None):
+       again=None, overlap=False):
     oldlen = sx.pick("oldlen", oldlens)
+    worlds.OVERLAPPING_ENCODINGS[0] = bool(overlap)
     w = worlds.T2World(sx, S, prefix, [tuple(r) for r in rsv], oldlen,
                        old_lt_80=long, nxp=nxp, rsv_on_len=rsv_on_len, plen=plen,
                        symbolic_window=(0, 0) if concrete else None)
@@ -23,8 +24,11 @@ def t2(sx, S, prefix, rsv, oldlens, lens, long, nxp=None, rsv_on_len=False, plen
 
 
 def t1(sx, hr, size, prefix, rsv, oldlens, lens, long, rsv_on_len=False, plen=(), concrete=False,
-       again=None):
+       again=None, overlap=False):
     oldlen = sx.pick("oldlen", oldlens)
+    worlds.OVERLAPPING_ENCODINGS[0] = bool(overlap)
+    if overlap:
+        sx.reach("ctl_tlv_byte_offset_beyond_page_size")
     w = worlds.T1World(sx, tuple(hr), size, prefix, [tuple(r) for r in rsv], oldlen,
                        old_lt_80=long, phys=512 if size == 296 else None,
                        rsv_on_len=rsv_on_len, plen=plen,
@@ -226,6 +230,15 @@ def partitions(tier):
     parts.append(dict(name="t1:dyn1024:L256+M256", fn="t1",
                       params=dict(hr=(0x12, 0x00), size=1024, prefix="LM", rsv=[(128, 32), (512, 256)],
                                   oldlens=[0], lens=[9, 400, "cap", "cap+1"], long=True, concrete=True)))
+    # control TLVs whose byte offset is not smaller than the page size (page
+    # address and byte offset "overlap": address = page * 2^n + offset all the same)
+    parts.append(dict(name="t1:dyn512:overlapping-encodings", fn="t1",
+                      params=dict(hr=(0x12, 0x00), size=512, prefix="LM", rsv=[(128, 2), (130, 6)],
+                                  oldlens=[0], lens=[9, 100, "cap", "cap+1"], long=True, concrete=True,
+                                  overlap=True)))
+    parts.append(dict(name="t2:496:overlapping-encodings", fn="t2",
+                      params=dict(S=496, prefix="LM", rsv=[(130, 2), (200, 5)], oldlens=[0],
+                                  lens=[9, 150, "cap", "cap+1"], long=True, concrete=True, overlap=True)))
     # the largest dynamic memory (TMS FFh, 2 KiB, sixteen segments): messages
     # that reach into the last segment (previous contents concrete)
     parts.append(dict(name="t1:dyn2048:last-segment", fn="t1",
@@ -297,7 +310,7 @@ def partitions(tier):
     return parts
 
 
-MUST_REACH = ["second_write_on_same_object", "second_write_changes_length_format", "oversize_rejected", "empty_message_written", "three_byte_length",
+MUST_REACH = ["ctl_tlv_byte_offset_beyond_page_size", "second_write_on_same_object", "second_write_changes_length_format", "oversize_rejected", "empty_message_written", "three_byte_length",
               "message_fills_capacity", "rsv_inside_message", "rsv_before_ndef_tlv",
               "rsv_beyond_data_area", "rsv_at_end_of_data_area", "rsv_after_message",
               "t1_message_spans_reserved_blocks", "nxp_vendor_class", "felica_vendor_class"]
